@@ -206,6 +206,29 @@ def _load_case_file(path):
 
 
 def main(argv=None):
+    """All scratch data of a run lives under ONE directory created here and removed here, whatever happens to the
+    worker processes (pool workers exit without running atexit handlers; crash-enumeration children are killed)."""
+    import shutil
+    import signal
+    import tempfile
+    base = os.environ.get('VERIF_SCRATCH', '/var/tmp')
+    os.makedirs(base, exist_ok=True)
+    run_root = tempfile.mkdtemp(prefix='dfverif-run-', dir=base)
+    os.environ['VERIF_SCRATCH'] = run_root
+
+    def _term(signum, frame):
+        raise SystemExit(2)
+    try:
+        signal.signal(signal.SIGTERM, _term)
+    except (ValueError, OSError):
+        pass
+    try:
+        return _main(argv)
+    finally:
+        shutil.rmtree(run_root, ignore_errors=True)
+
+
+def _main(argv=None):
     ap = argparse.ArgumentParser()
     ap.add_argument('pid')
     ap.add_argument('--tier', default=os.environ.get('VERIF_TIER', 'quick'), choices=['quick', 'thorough'])
